@@ -7,3 +7,4 @@ for id in "$@"; do
   echo "== $id exit=$code: $(echo "$out" | grep -a -c '^VIOLATION') violation(s); $(echo "$out" | grep -a -m1 'sig=' | cut -c1-200)"
 done
 git -C /repo checkout -- .
+(cd /verif/sim && cargo build --release --offline >/dev/null 2>&1)  # never leave a binary built from a mutated tree behind
